@@ -44,6 +44,28 @@ template<> struct Val<std::string> {
     static const char *name() { return "std::string"; }
 };
 
+// floating-point mapped types: the reserved tombstone is numeric max; everything else - including both infinities, the lowest
+// value, zero of either sign and denormals - is an ordinary value (NaN is left out: it does not compare equal to itself)
+template<typename F>
+static F fp_val(uint32_t id) {
+    switch (id % 16) {
+        case 3: return std::numeric_limits<F>::infinity();
+        case 7: return -std::numeric_limits<F>::infinity();
+        case 11: return std::numeric_limits<F>::lowest();
+        case 13: return id % 32 < 16 ? F(0) : -F(0);
+        case 15: return std::numeric_limits<F>::denorm_min();
+        default: return F(id) * F(0.5);
+    }
+}
+template<> struct Val<double> {
+    static double make(uint32_t id) { return fp_val<double>(id); }
+    static const char *name() { return "double"; }
+};
+template<> struct Val<float> {
+    static float make(uint32_t id) { return fp_val<float>(id % 1000003); }
+    static const char *name() { return "float"; }
+};
+
 /// Protected members of a PGMIndex instantiation through pointers to members named via a derived class (well-formed C++).
 template<typename PGM>
 struct PgmPeek : PGM {
